@@ -946,6 +946,138 @@ def r7_7(ctx):
     ctx.count('message_buffers', n)
 
 
+INT_BITS = {'char': 8, 'unsigned char': 8, 'signed char': 8, 'uint8_t': 8, 'int8_t': 8, 'BYTE': 8,
+            'short': 16, 'unsigned short': 16, 'uint16_t': 16, 'int16_t': 16, 'WORD': 16}
+UNSIGNED = ('unsigned char', 'uint8_t', 'BYTE', 'unsigned short', 'uint16_t', 'WORD')
+COMPILE_TUS = ('libyara/lexer.c', 'libyara/hex_lexer.c', 'libyara/re_lexer.c', 'libyara/grammar.c',
+               'libyara/hex_grammar.c', 'libyara/re_grammar.c', 'libyara/parser.c', 'libyara/compiler.c',
+               'libyara/re.c', 'libyara/atoms.c', 'libyara/ahocorasick.c', 'libyara/base64.c',
+               'libyara/sizedstr.c', 'libyara/strutils.c')
+
+
+def _tname(t):
+    return (t or '').replace('const ', '').replace('volatile ', '').strip()
+
+
+def _tmax(t):
+    t = _tname(t)
+    b = INT_BITS.get(t)
+    if b is None:
+        return None
+    return (1 << b) - 1 if t in UNSIGNED else (1 << (b - 1)) - 1
+
+
+def upper_bound(f, e, depth=0):
+    """a sound upper bound of an integer expression, or None (unknown / wide)"""
+    e0 = e
+    if e is None or depth > 8:
+        return None
+    cap = None
+    while e is not None and e['k'] == 'cast':
+        m = _tmax(e.get('t'))
+        if m is not None:
+            cap = m if cap is None else min(cap, m)
+        e = f.kid(e, 0)
+    if e is None:
+        return cap
+    v = cu.const_of(e)
+    ub = None
+    if v is not None:
+        ub = v
+    elif e['k'] == 'bin' and e['op'] in ('|', '&', '^'):
+        a, b = upper_bound(f, f.kid(e, 0), depth + 1), upper_bound(f, f.kid(e, 1), depth + 1)
+        if e['op'] == '&':
+            c = [x for x in (a, b) if x is not None]
+            ub = min(c) if c else None
+        elif a is not None and b is not None:
+            ub = (1 << max(a, b).bit_length()) - 1
+    elif e['k'] == 'ref':
+        d = cu.decl_of(f, e) if e.get('dk') in ('local', None) else None
+        tm = _tmax(d.get('t')) if d is not None else None
+        if d is not None:
+            vals = []
+            ok = True
+            for n in f.all_nodes():
+                r = None
+                if n is d and n.get('c'):
+                    r = f.kid(n, 0)
+                elif n['k'] == 'bin' and n['op'] == '=':
+                    l = cu.strip_casts(f, f.kid(n, 0))
+                    if l is not None and l['k'] == 'ref' and l['name'] == e['name'] and cu.decl_of(f, l) is d:
+                        r = f.kid(n, 1)
+                elif n['k'] in ('bin', 'un') and n.get('op') in ('+=', '-=', '*=', '++', 'post++', '<<=', '|=') :
+                    l = cu.strip_casts(f, f.kid(n, 0))
+                    if l is not None and l['k'] == 'ref' and l['name'] == e['name'] and cu.decl_of(f, l) is d:
+                        ok = False
+                elif n['k'] == 'un' and n['op'] == '&':
+                    l = cu.strip_casts(f, f.kid(n, 0))
+                    if l is not None and l['k'] == 'ref' and l['name'] == e['name'] and cu.decl_of(f, l) is d:
+                        ok = False      # written through a pointer
+                if r is not None:
+                    u = upper_bound(f, r, depth + 1)
+                    if u is None:
+                        ok = False
+                    else:
+                        vals.append(u)
+            if ok and vals:
+                ub = max(vals)
+        if ub is None:
+            ub = tm
+        elif tm is not None:
+            ub = min(ub, tm)
+    else:
+        ub = _tmax(e.get('t'))
+    if cap is not None:
+        ub = cap if ub is None else min(ub, cap)
+    return ub
+
+
+def r7_8(ctx):
+    """counting loops over narrow counters terminate: `i <= bound` with a counter that
+    cannot exceed the bound never becomes false"""
+    prog = ctx.prog
+    n_loops = 0
+    for f in prog.fns():
+        if f.tu.name not in COMPILE_TUS and not ctx.fixture:
+            continue
+        k = 0
+        for n in f.all_nodes():
+            if n['k'] not in ('for', 'while'):
+                continue
+            c = f.kid(n, 1) if n['k'] == 'for' else f.kid(n, 0)
+            if c is None:
+                continue
+            for x in f.walk(c):
+                if x['k'] != 'bin' or x['op'] != '<=':
+                    continue
+                l = cu.strip_casts(f, f.kid(x, 0))
+                if l is None or l['k'] != 'ref':
+                    continue
+                d = cu.decl_of(f, l)
+                if d is None or _tmax(d.get('t')) is None:
+                    continue
+                incs = [w for w in f.walk(n) if
+                        (w['k'] == 'un' and w['op'] in ('++', 'post++') and
+                         f.show(cu.strip_casts(f, f.kid(w, 0))) == l['name']) or
+                        (w['k'] == 'bin' and w['op'] == '+=' and
+                         f.show(cu.strip_casts(f, f.kid(w, 0))) == l['name'])]
+                if not incs:
+                    continue
+                n_loops += 1
+                cmax = _tmax(d.get('t'))
+                ub = upper_bound(f, f.kid(x, 1))
+                ok = ub is not None and ub < cmax
+                ctx.ob('R7.8', '%s:loop%d(%s):counter-can-pass-bound' % (f.name, k, l['name']), ok, f.loc(x),
+                       'counter %s (%s, max %d) can exceed the bound (at most %s): the loop ends' % (
+                           l['name'], _tname(d.get('t')), cmax, ub) if ok else
+                       'counter %s has type %s (max %d) and the bound %s can be as large as %s: '
+                       '`%s <= bound` is then always true and the loop never ends' % (
+                           l['name'], _tname(d.get('t')), cmax, f.show(f.kid(x, 1))[:40],
+                           ub if ub is not None else 'any value', l['name']))
+                k += 1
+    ctx.count('narrow_counter_loops', n_loops)
+
+
 def _fx(fn, **kw):
     d = {'src': 'C07/parse.c', 'run': fn, 'texts': {'C07/grammar.y': 'libyara/grammar.y'}}
     d.update(kw)
@@ -959,6 +1091,8 @@ FIXTURES = {
                 expect_ok='entry_clean:yara_yyparse:recovery-releases'),
     'R7.5': _fx(r7_5, expect='YR_COMPILER.lost_table:released-by-destroy',
                 expect_ok='YR_COMPILER.table:released-by-destroy'),
+    'R7.8': _fx(r7_8, expect='narrow_loop_bad:loop0(c):counter-can-pass-bound',
+                expect_ok='narrow_loop_good:loop0(c):counter-can-pass-bound'),
     'R7.7': _fx(r7_7, expect='reads_unset:err:message-initialised',
                 expect_ok='reads_set:err:message-initialised'),
     'R7.6': _fx(r7_6, expect='ERROR_NO_MESSAGE:has-message', expect_ok='ERROR_KNOWN:has-message'),
@@ -984,3 +1118,5 @@ def run(ctx):
     ctx.floor('R7.6', 25)
     r7_7(ctx)
     ctx.floor('R7.7', 3)
+    r7_8(ctx)
+    ctx.floor('R7.8', 2)
